@@ -413,6 +413,9 @@ class Program:
         return f
 
     def all_functions(self) -> List[FuncInfo]:
+        hidden = getattr(self, "hidden", None)
+        if hidden:
+            return [f for q, f in self.functions.items() if q not in hidden]
         return list(self.functions.values())
 
     def enclosing_class(self, f: FuncInfo) -> Optional[ClassInfo]:
